@@ -251,6 +251,9 @@ func verifyFunc(L *Loaded, fc *FuncContract, fn *ssa.Function) (res *FuncResult)
 	for _, r := range fc.Requires {
 		ex.assume(tTrue, env.evalBool(r))
 	}
+	// ghost code at entry
+	fr.curBlock = fn.Blocks[0]
+	fr.ghostAt("entry", 0, "entry", "before", tTrue, st, map[string]Val{})
 	ex.cover("vacuity:pre", tTrue, tTrue, relPath(fc.File)+fmt.Sprintf(":%d", fc.Line), "precondition, type invariants and axioms are satisfiable")
 	fr.runRegion(nil, fn.Blocks[0], reach, st, false)
 	// returns
